@@ -87,9 +87,15 @@ def extract(cfg="dev", force=False):
     lock = open(os.path.join(CACHE, "extract-%s.lock" % cfg), "w")
     fcntl.flock(lock, fcntl.LOCK_EX)
     try:
-        if not os.path.exists(DRIVER):
+        # the driver is rebuilt when its source changed, and facts written by an older driver are not reused
+        dsrc = os.path.join(DRIVER_DIR, "src", "main.rs")
+        dkey = hashlib.sha256(open(dsrc, "rb").read()).hexdigest()[:12]
+        dstamp = os.path.join(CACHE, "driver.key")
+        if not os.path.exists(DRIVER) or not os.path.exists(dstamp) or open(dstamp).read().strip() != dkey:
             build_driver()
-        key = _hash_tree(repo)
+            with open(dstamp, "w") as fh:
+                fh.write(dkey)
+        key = _hash_tree(repo) + ":" + dkey
         tag = hashlib.sha256(os.path.abspath(repo).encode()).hexdigest()[:8]
         out_dir = os.path.join(CACHE, "facts", cfg + "-" + tag)
         stamp = os.path.join(out_dir, "KEY")
